@@ -900,13 +900,18 @@ def _pure_aliases(fn: ast.AST) -> Dict[str, ast.expr]:
                     in_loop.add(n.id)
             elif isinstance(n, ast.Attribute) and isinstance(n.ctx, (ast.Store, ast.Del)):
                 attr_store_pos.setdefault(n.attr, []).append(k[0])
+            elif isinstance(n, (ast.Await, ast.Yield, ast.YieldFrom)):
+                await_pos.append(k[0])
             number(ast.iter_child_nodes(n), k, loop or isinstance(n, (ast.For, ast.While, ast.AsyncFor)))
+    await_pos: List[int] = []
     number(fn.body)
 
-    def stores_only_after_uses(name: str, attrs: List[str]) -> bool:
-        """``x = self._a; ... x(...) ...; self._a = None``: every store into an attribute of the chain comes after the last read of the alias (straight-line code)."""
-        ps = [p_ for a_ in attrs for p_ in attr_store_pos.get(a_, [])]
-        return bool(ps) and name not in in_loop and name in last_load and min(ps) > last_load[name]
+    def stores_only_after_uses(name: str, attrs: List[str], def_pos: int = 0) -> bool:
+        """``x = self._a; ... x(...) ...; self._a = None``: every store into an attribute of the chain comes after the last read of the alias (straight-line code)
+        -- or before the alias is made (``self._a = new(); x = self._a; x.step()``: the alias takes the value the store left)."""
+        ps = [p_ for a_ in attrs for p_ in attr_store_pos.get(a_, []) if not (def_pos and p_ < def_pos)]
+        every = [p_ for a_ in attrs for p_ in attr_store_pos.get(a_, [])]
+        return bool(every) and name not in in_loop and name in last_load and (not ps or min(ps) > last_load[name])
     for st in ast.walk(fn):
         if isinstance(st, ast.NamedExpr) and isinstance(st.target, ast.Name):
             st = ast.Assign(targets=[st.target], value=st.value)   # ``(x := self._a) is not None``: the same binding, made inside an expression
@@ -919,9 +924,13 @@ def _pure_aliases(fn: ast.AST) -> Dict[str, ast.expr]:
                 attrs.append(root.attr)
                 root = root.value
             name = st.targets[0].id
+            # a local taken from an attribute of ``self`` BEFORE an await and used after it is a snapshot: whatever runs during the await may re-bind the attribute,
+            # the local keeps the old object -- it is not "the attribute" any more
+            if attrs and isinstance(root, ast.Name) and root.id == 'self' and any(pos.get(id(st), 0) < p_ < last_load.get(name, 0) for p_ in await_pos):
+                continue
             if ((attrs or (isinstance(root, ast.Name) and root.id not in ('None', 'True', 'False'))) and isinstance(root, ast.Name) and stores.get(name) == 1 and name not in params and name not in declared
                     and (stores.get(root.id, 0) == 0 or (stores.get(root.id) == 1 and attrs and root.id not in params and first_store.get(root.id, 1 << 30) < pos.get(id(st.value), 0)))
-                    and root.id not in declared and root.id != name and (not (set(attrs) & attr_stores) or (stores_only_after_uses(name, attrs) and not any(
+                    and root.id not in declared and root.id != name and (not (set(attrs) & attr_stores) or (stores_only_after_uses(name, attrs, pos.get(id(st), pos.get(id(st.value), 0)) if first_store.get(name) else 0) and not any(
                         isinstance(c_, ast.Call) and isinstance(c_.func, ast.Name) and c_.func.id in ('setattr', 'delattr') for c_ in ast.walk(fn))))):
                 cands[name] = v
     return cands
